@@ -133,6 +133,20 @@ def _reconnect_corrupt(evs, profile):
     return None
 
 
+def _tl_corrupt(evs, profile):
+    out = [dict(e) for e in evs]
+    # a timeout is reported one tick late
+    for i, e in enumerate(out):
+        if e.get('e') == 'poll' and e.get('kind') == 'timeout' and i > 0 and out[i - 1].get('e') == 'advance':
+            out[i - 1]['d'] += 1
+            out[i - 1]['t'] += 1
+            for x in out[i:]:
+                if 't' in x:
+                    x['t'] += 1
+            return out
+    return None
+
+
 COMPONENTS = {
     'bulkhead': {
         'spec_files': ['Bulkhead.tla', 'MC_Bulkhead.tla', 'Trace_Bulkhead.tla'],
@@ -215,6 +229,15 @@ COMPONENTS = {
         'random': {'quick': [{'runs': 1500}], 'thorough': [{'runs': 20000}]},
         'corrupt': _reconnect_corrupt,
     },
+    'timelimiter': {
+        'spec_files': ['TimeLimiter.tla', 'MC_TimeLimiter.tla', 'Trace_TimeLimiter.tla'],
+        'mc': {'quick': [{'cfg': 'MC_TimeLimiter_q.cfg', 'module': 'MC_TimeLimiter'}], 'thorough': [{'cfg': 'MC_TimeLimiter.cfg', 'module': 'MC_TimeLimiter'}]},
+        'gen': {'cfg': 'Gen_TimeLimiter.cfg', 'module': 'MC_TimeLimiter', 'num': {'quick': 400, 'thorough': 5000}, 'depth': 40},
+        'trace_module': 'Trace_TimeLimiter', 'trace_cfg_tmpl': 'Trace_TimeLimiter.cfg.tmpl',
+        'harness': 'timelimiter',
+        'random': {'quick': [{'runs': 2000}], 'thorough': [{'runs': 30000}]},
+        'corrupt': _tl_corrupt,
+    },
 }
 
 PROPS = {
@@ -232,6 +255,7 @@ PROPS = {
     'C05': {'comp': 'retry', 'profile': 'full'},
     'C14': {'comp': 'backoff', 'profile': 'schedule'},
     'C16': {'comp': 'reconnect', 'profile': 'full'},
+    'C06': {'comp': 'timelimiter', 'profile': 'full'},
     'C02': {'comp': 'ratelimiter', 'profile': 'ProfC02', 'drift_profile': 'ProfAll'},
     'C15': {'comp': 'ratelimiter', 'profile': 'ProfC15', 'drift_profile': 'ProfAll'},
 }
